@@ -120,6 +120,9 @@ func serixLeg(s *simrt.Sim, reencode bool) {
 		if reencode {
 			var n int
 			var ok bool
+			// the byte string the statement speaks about is the one handed to the decoder: the comparison uses a copy taken
+			// before the call
+			pristine := append([]byte{}, in...)
 			if panicked, _ := hx.Try(func() { n, ok = decode(in)() }); panicked {
 				s.Probe("decode-panicked(see C02)")
 				return
@@ -130,7 +133,7 @@ func serixLeg(s *simrt.Sim, reencode bool) {
 				return
 			}
 			fr.st.accepted++
-			checkReencode(s, e, kind, desc, in, n, dst, b, ref.marks, fr.class)
+			checkReencode(s, e, kind, desc, pristine, n, dst, b, ref.marks, fr.class)
 			return
 		}
 		probe(s, &fr.st, fr.target, kind, fmt.Sprintf("%s; type=%s validate=%v", desc, e.name, validate), in, fr.measure(), decode(in))
